@@ -20,9 +20,9 @@ import common
 META = {
     "id": "C09",
     "level": "proof",
-    "technique": "Coq theorems (unbounded, induction over engine streams) about an executable model of shoot / wire_fencing / extender / subt_acceptance / run_md glue + scripted-oracle lock-step of the extracted model against the real moves + the property's statement evaluated on the implementation",
-    "text": "For every old path, interface triple, cap, length limits, n_jumps, random draws and engine streams: a move reports acceptance iff its status is ACC; an accepted shooting path starts and ends outside the interfaces on the allowed sides (code's own operators), stays inside in between, crosses the ensemble interface, respects both length limits, contains the shooting point at index len(back)-1, equals rev(backward)++tail(forward) and has own-ensemble weight 1; an accepted wire-fencing path is shorter than maxlength, starts on the ensemble's side, never trips the final assertion and (no frame exactly on the cap) has positive weight; a rejected move returns/keeps the old path; the shooting index is in [1, L-2]; a trial whose trajectories reach the interfaces is accepted iff r <= n_old/n_new (repaired stop rule; for the current rule the theorem gives r <= n_old/(n_new+1) and a refutation witness).",
-    "note": "Trusted: Coq kernel; extraction (ExtrOcamlBasic) + ocaml/util.ml + ocaml/c09_driver.ml; this harness (scripted engine/generator, encoders, generators, oracle). numpy's Generator.integers is modelled by its contract (a value in [low, high)) and additionally sampled on the real generator. int((L-2)/r) is modelled as the floor of the exact rational; draws whose float quotient is not exact are skipped and counted. The engine is assumed to honour the propagate contract (C12). Orders are integer valued so every comparison is exact. All theorems are closed under the global context (no axioms).",
+    "technique": "Coq theorems (unbounded: all old paths, interfaces, limits, draws and engine streams; induction over engine streams and the jump loop) about an executable model of shoot / wire_fencing / extender / subt_acceptance / select_shoot / run_md glue, with the repaired add_to_path stop rule /repo has now; scripted-engine + scripted-generator lock-step of the extracted model against the REAL moves; the property's own statement evaluated on the implementation's outputs (also for retis_swap_zero)",
+    "text": "For every old path, interface triple, cap, length limits, n_jumps, random draws and engine streams: shoot / wire_fencing / select_shoot report acceptance iff the status is ACC and run_md installs the new path iff accepted, otherwise returns the old path unchanged (C09_accept_iff_ACC_*, C09_run_md_replaces_iff_accepted, C09_reject_untouched). An accepted shooting path is xb, reversed backward interior, shooting point, forward interior, xf with (i) xb, xf outside [i0,i2] (stop-rule operators), start on an allowed side, no end on the left without 'L'; (ii) all other frames inside; (iii) the ensemble interface crossed; (iv) 3 <= length <= maxlength and length-2 <= (L_old-2)/r; (v) the shooting point is an interior frame of the old path and sits at index len(back)-1; (vi) position p holds the frame the engine produced |p-jb| steps from the shooting point, backward frames (velocities reversed) before it, forward frames after it, time origin shifted accordingly; (vii) own-ensemble entry of calc_cv_vector = 1 (C09_acc_valid_shoot, C09_acc_shoot_time_ordered, C09_acc_own_weight_shoot_plus/minus). C09_shooting_index_interior: index in [1, L-2] for every u in [0,1). C09_accept_rule: a trial whose trajectories reach the interfaces, fits maxlength and would be valid is accepted iff r <= n_old/n_new; for the rule before the repair the guarded form r <= n_old/(n_new+1) and the refutation witness (L_old 7, r 1/2, L_new 12) are proved. An accepted wire-fencing path is shorter than maxlength, starts on the ensemble's side, has ends that cannot be extended and an inside interior, crosses lambda_i, and has positive wire-fencing weight provided no frame lies exactly on the cap (C09_acc_valid_wire_fencing, C09_acc_own_weight_wire_fencing); without that guard the weight can be 0 (C09_wire_fencing_weight_on_cap_refuted, recorded finding).",
+    "note": "Zero swaps: the Coq model of retis_swap_zero / quantis_swap_zero is C11's (model/SwapM.v, another builder); C09 has no theorem about them and only evaluates the statement (accept iff ACC, accepted paths valid in [0-]/[0+], crossing frames exchanged, old paths untouched, non-zero own weights) on the real retis_swap_zero with shooting moves and the one global maxlength of the real program. Known finding (not repaired, no small safe patch: the boundary conventions '> cap' of add_to_path and '>= cap' of wirefence_weight_and_pick differ): an accepted wire-fencing path with a frame exactly on the cap, reached by a jump over [lambda_i, cap), has weight 0 — reported as KNOWN-FINDING only for accepted paths that contain a frame equal to the cap. Observations outside the statement are listed in the evidence (path.weight attribute 0.0 after Path.reverse; status/generated of the old path object rewritten by wire_fencing on NSG). Trusted: Coq kernel; extraction (ExtrOcamlBasic) + ocaml/util.ml + ocaml/c09_driver.ml; this harness (scripted engine/generator, encoders, generators, oracle). numpy's Generator.integers is modelled by its contract (a value in [low, high)) and sampled on the real generator through Path.get_shooting_point. int((L-2)/r) is modelled as the floor of the exact rational; draws whose float quotient is not exact are skipped and counted. The engine is assumed to honour the propagate contract (C12). Orders are integer valued so every comparison is exact; 'outside' follows the code's own operators (stop rule < / >, classification <= / >=). All theorems are closed under the global context (no axioms).",
     "design_ref": "4/C09, lead L11",
 }
 LEVEL = "proof"
@@ -339,13 +339,12 @@ def oracle_shoot(case, res):
         return None, "err"
     if acc != (status == "ACC"):
         return f"accept flag {acc} but status {status}", "flag"
-    u = Fr(case["draws"][0])
-    idx = 1 + (u * (L - 2)).__floor__()
-    if not 1 <= idx <= L - 2:
-        return f"shooting index {idx} is an end point of a path of length {L}", "idx"
     g = trial.generated
-    if g[0] != "sh" or g[2] != idx:
-        return f"generated {g} does not record shooting index {idx}", "idx"
+    if not (isinstance(g, tuple) and len(g) == 4 and g[0] == "sh"):
+        return f"the trial path does not record a shooting move: generated = {g}", "idx"
+    idx = int(g[2])
+    if not 1 <= idx <= L - 2:
+        return f"the shooting point (index {idx}) is an end point of the old path of length {L}", "idx"
     kick = case["kicks"][0] if case["kicks"] else None
     osp = kick if kick is not None else old["orders"][idx]
     kicked_out = not (left <= osp < right)
@@ -933,6 +932,102 @@ def check_add_to_path(ctx, runner, fx):
     return len(reqs), len(bad)
 
 
+# =========================================================================== zero swap (oracle only)
+
+
+def swap_case_paths(L0, LN):
+    """Valid [0-] / [0+] old paths over a small alphabet (lambda_0 = L0, lambda_N = LN)."""
+    minus, plus = [], []
+    for n in (3, 4, 5):
+        for mid in itertools.product([L0 - 2, L0 - 1, L0], repeat=n - 2):
+            minus.append((L0 + 1,) + mid + (L0 + 1,))
+        for mid in itertools.product([L0, L0 + 1, LN], repeat=n - 2):
+            for e in (L0 - 1, LN + 1):
+                plus.append((L0 - 1,) + mid + (e,))
+    return minus, plus
+
+
+def run_swap(case):
+    import infretis.core.tis as tis
+    L0, LN, M = case["L0"], case["LN"], case["maxlength"]
+    old0 = mk_old({"orders": case["old0"], "revs": [False] * len(case["old0"]), "maxlen": M, "t0": 0}, "oldm")
+    old1 = mk_old({"orders": case["old1"], "revs": [False] * len(case["old1"]), "maxlen": M, "t0": 0}, "oldp")
+    eng = engine(case["streams"], [])
+    rng = SRng([])
+    ens0 = {"interfaces": (float("-inf"), L0, L0), "tis_set": {"maxlength": M}, "mc_move": "sh", "ens_name": "000",
+            "start_cond": "R", "rgen": rng}
+    ens1 = {"interfaces": (L0, L0, LN), "tis_set": {"maxlength": M}, "mc_move": "sh", "ens_name": "001",
+            "start_cond": "L", "rgen": rng}
+    picked = {-1: {"ens": ens0, "traj": old0}, 0: {"ens": ens1, "traj": old1}}
+    b0, b1 = snap_frames(old0), snap_frames(old1)
+    try:
+        acc, (p0, p1), status = tis.retis_swap_zero(picked, {-1: [eng], 0: [eng]})
+    except RuntimeError:          # script exhausted: not a case
+        return None
+    return {"acc": bool(acc), "status": status, "p0": p0, "p1": p1,
+            "same": snap_frames(old0) == b0 and snap_frames(old1) == b1, "old0": old0, "old1": old1}
+
+
+def oracle_swap(case, res):
+    from infretis.core.tis import calc_cv_vector
+    L0, LN, M = case["L0"], case["LN"], case["maxlength"]
+    if res["acc"] != (res["status"] == "ACC"):
+        return f"zero swap: accept flag {res['acc']} but status {res['status']}"
+    if not res["same"]:
+        return f"zero swap ({res['status']}): an old path object was modified"
+    if not res["acc"]:
+        return None
+    o0 = [int(s.order[0]) for s in res["p0"].phasepoints]
+    o1 = [int(s.order[0]) for s in res["p1"].phasepoints]
+    if not (3 <= len(o0) < M and 3 <= len(o1) < M):
+        return f"zero swap: accepted lengths {len(o0)}, {len(o1)} outside [3, {M})"
+    # [0-]: starts and ends right of lambda_0 (code's classification >=), interior not right of it
+    if not (o0[0] >= L0 and o0[-1] >= L0) or any(x > L0 for x in o0[1:-1]):
+        return f"zero swap: new [0-] path {o0} is not R..R around {L0}"
+    # [0+]: starts left (<=), ends outside [lambda_0, lambda_N] by the stop rule, interior inside
+    if not (o1[0] <= L0 and (o1[-1] < L0 or o1[-1] > LN)) or any(not (L0 <= x <= LN) for x in o1[1:-1]):
+        return f"zero swap: new [0+] path {o1} does not belong to [{L0}, {LN}]"
+    # the exchanged crossing frames
+    if o0[-2:] != list(case["old1"][:2]) or o1[:2] != list(case["old0"][-2:]):
+        return f"zero swap: crossing frames not exchanged: {o0} / {o1}"
+    w0 = calc_cv_vector(res["p0"], [L0, LN], ["sh", "sh", "sh"], minus=True)[0]
+    w1 = calc_cv_vector(res["p1"], [L0, LN], ["sh", "sh", "sh"])[0]
+    if not (w0 > 0 and w1 > 0):
+        return f"zero swap: own-ensemble weights {w0}, {w1} of the accepted paths"
+    return None
+
+
+def check_zero_swap(ctx):
+    """retis_swap_zero against the statement of C09 (no model here: C11 owns the swap model).
+    maxlength is the same for both ensembles, as in the real program (one global tis_set)."""
+    rng = ctx.rng
+    L0, LN = 2, 4
+    minus, plus = swap_case_paths(L0, LN)
+    per = 1 if ctx.tier == "quick" else 8
+    n = bad = 0
+    for old0 in minus:
+        for old1 in plus:
+            for _ in range(per):
+                M = rng.choice([3, 4, 5, 6, 8, 30])
+                kb, kf = rng.randrange(0, 7), rng.randrange(0, 7)
+                sb = [rng.choice([L0 - 2, L0 - 1, L0]) for _ in range(kb)] + [L0 + 1] + [L0 + 1] * 2
+                sf = [rng.choice([L0, L0 + 1, LN]) for _ in range(kf)] + [rng.choice([L0 - 1, LN + 1])] * 3
+                case = {"kind": "swap0", "L0": L0, "LN": LN, "maxlength": M, "old0": list(old0), "old1": list(old1),
+                        "streams": [sb, sf]}
+                res = run_swap(case)
+                if res is None:
+                    continue
+                n += 1
+                ctx.count(("swap0", old0, old1, M, tuple(sb), tuple(sf)))
+                ctx.dist(f"swap0:{res['status']}")
+                err = oracle_swap(case, res)
+                if err:
+                    bad += 1
+                    if bad <= 3:
+                        ctx.violation(f"C09 statement fails on the implementation: {err}", {"case": case}, True)
+    return n, bad
+
+
 def run(ctx):
     common.proof_stage(ctx, "C09", ["extract/c09.vo"])
     runner = common.runner_stage(ctx, "c09")
@@ -968,6 +1063,7 @@ def run(ctx):
         stats, pairs = evaluate(ctx, cases, runner, fx, scratch)
         n_atp, bad_atp = check_add_to_path(ctx, runner, fx)
         n_idx = check_real_generator(ctx)
+        n_swap, bad_swap = check_zero_swap(ctx)
     finally:
         logging.disable(logging.NOTSET)
         common.rmtree(scratch)
@@ -987,10 +1083,13 @@ def run(ctx):
         "patterns; hostile inputs (limits 0..4, r = 0, missing draws/streams, short paths, inverted interfaces, kicks); seeded "
         "random larger cases. Wire fencing: every valid old path (alphabet incl. values equal to each interface / the cap) of "
         "length 3..7 x n_jumps 1..3 x maxlength 3..30 x pick/index draws on a grid x random streams that end or run into the "
-        "limit; random larger cases. A case is distinct by its request line; non-trivial = the move did not raise.")
+        "limit; random larger cases. Zero swap (oracle only): every pair of valid [0-] x [0+] old paths of length 3..5 over a "
+        "3-letter interior alphabet x random limits and trajectories. A case is distinct by its request line; non-trivial = the "
+        "move did not raise.")
     ctx.cov["correspondence"] = {"compared": len(cases) + n_atp, "disagreements": stats["corr_fail"] + bad_atp,
                                  "oracle_failures": stats["oracle_fail"], "old_path_modified": stats["untouched_fail"],
-                                 "real_generator_index_draws": n_idx}
+                                 "real_generator_index_draws": n_idx,
+                                 "zero_swap_oracle_cases": n_swap, "zero_swap_oracle_failures": bad_swap}
     ctx.cov["observations"] = [
         "wire_fencing rewrites status ('NSG') and generated of the OLD path object when no jump succeeds (frames untouched)",
         "subt_acceptance sets trial.weight before Path.reverse, which does not carry it over: a reversed accepted wf path has weight attribute 0.0 (attribute unused elsewhere)",
@@ -1012,6 +1111,14 @@ def replay(doc):
     case = rp.get("case")
     if not case or "kind" not in case or case["kind"] == "get_shooting_point":
         return 0
+    if case["kind"] == "swap0":
+        res = run_swap(case)
+        err = oracle_swap(case, res) if res else "script exhausted"
+        if res:
+            print("implementation now answers:", res["acc"], res["status"],
+                  [int(s.order[0]) for s in res["p0"].phasepoints], [int(s.order[0]) for s in res["p1"].phasepoints])
+        print("property oracle:", err or "holds on this input")
+        return 1 if err else 0
     scratch = common.scratch_dir("infv_c09_")
     try:
         os.makedirs(os.path.join(scratch, "load"))
